@@ -1348,7 +1348,7 @@ matrix_set_size(matrix *self, PyObject *value, void *closure)
   if (m<0 || n<0)
     PY_ERR_INT(PyExc_TypeError, "dimensions must be non-negative");
 
-  if (m*n != MAT_LGT(self))
+  if ((int_t)m*n != MAT_LGT(self))
     PY_ERR_INT(PyExc_TypeError, "number of elements in matrix cannot change");
 
   MAT_NROWS(self) = m;
